@@ -41,6 +41,7 @@ func (fv *FnV) frameWrite(st *State, comp, ref string, pos token.Pos) {
 }
 
 func (fv *FnV) frameWriteCond(st *State, comp, ref, cond string, pos token.Pos) {
+	fv.docWrite(st, comp, ref, cond, pos)
 	if fv.k == nil || !fv.k.HasMods {
 		return
 	}
@@ -73,10 +74,15 @@ func (fv *FnV) frameWriteCond(st *State, comp, ref, cond string, pos token.Pos) 
 
 // frameCall: a callee's frame must be inside the caller's.
 func (fv *FnV) frameCall(st *State, ms *ModSet, callee string, pos token.Pos) {
-	if fv.k == nil || !fv.k.HasMods {
+	if fv.k == nil || !fv.k.HasMods || fv.k.Trusted != "" {
 		return
 	}
 	decl := fv.declaredMods()
+	for spelled := range fv.k.ModAt {
+		for _, key := range fv.g.expandModKey(spelled) {
+			decl.comps[key] = true
+		}
+	}
 	if decl.all {
 		return
 	}
@@ -405,4 +411,131 @@ func (fv *FnV) publishedWrite(st *State, ref string, pos token.Pos) {
 		fv.emit(st, "L", "published:"+p.gd.Name+":"+fv.siteText(pos, "index"), fv.lockProps(), or(held, not(eq(ref, p.ref))),
 			"an array stored into "+p.gd.Name+" (at "+fv.posString(p.pos)+") is written afterwards only with "+p.gd.Mutex+" held", pos)
 	}
+}
+
+// docWrite (C11): zero-annotation discipline for document-shaped data. Every write to a map or to a slice element targets
+// an object allocated by the current activation, or an object the function's contract names in a `writes` clause; a
+// function that `writes` a parameter obliges its callers to pass an object they allocated or may write themselves.
+func (fv *FnV) docWrite(st *State, comp, ref, cond string, pos token.Pos) {
+	if fv.k == nil || len(fv.k.FrameTags) == 0 || fv.k.Trusted != "" {
+		return
+	}
+	// document-shaped data: map[string]any and []any
+	if comp != "M|Str|Any" && comp != "D|Str|Any" && comp != "E|Any" {
+		return
+	}
+	if fv.engineOwnedTarget(fv.curWriteTarget) {
+		return
+	}
+	if strings.HasPrefix(comp, "D|") && fv.lastDocWrite == ref+"@"+fv.posString(pos) {
+		return // the domain half of the map store just reported
+	}
+	fv.lastDocWrite = ref + "@" + fv.posString(pos)
+	fv.bornFn()
+	alts := []string{"(>= (birth " + ref + ") " + fv.now0 + ")"}
+	alts = append(alts, fv.writableRefs(st, ref)...)
+	if fv.curWriteKey != "" && strings.HasPrefix(comp, "M|") || strings.HasPrefix(comp, "D|") && fv.curWriteKey != "" {
+		// the reserved navigation key may be set on, and removed from, a row the engine does not own (its removal is a separate obligation)
+		alts = append(alts, eq(fv.curWriteKey, fv.g.strLit("<-")))
+	}
+	goal := implies(cond, or(alts...))
+	kind := "map"
+	if strings.HasPrefix(comp, "E|") {
+		kind = "slice"
+	}
+	fv.emit(st, "W", kind+":"+fv.siteText(pos, "mapstore"), fv.k.FrameTags, goal,
+		"the written "+kind+" was allocated by this activation or is named in a `writes` clause", pos)
+}
+
+// writableRefs: equalities ref == (object named by a writes clause), evaluated at entry.
+func (fv *FnV) writableRefs(st *State, ref string) []string {
+	var out []string
+	if fv.k == nil {
+		return nil
+	}
+	for _, ex := range fv.k.Writes {
+		env := fv.contractEnv(fv.entry, fv.entry, nil)
+		v, err := env.eval(ex)
+		if err != nil {
+			env2 := fv.contractEnv(st, fv.entry, nil)
+			if li := fv.innermostLoop(); li != nil {
+				env2.loop = li
+			}
+			v, err = env2.eval(ex)
+			if err != nil {
+				continue
+			}
+		}
+		r := v.T
+		switch v.S {
+		case sSlice:
+			r = "(s!ref " + v.T + ")"
+		case sAny:
+			// an interface holding a map or a slice
+			mc := fv.g.ctorFor(types.NewMap(types.Typ[types.String], types.NewInterfaceType(nil, nil)))
+			sc := fv.g.ctorFor(types.NewSlice(types.NewInterfaceType(nil, nil)))
+			out = append(out, and("((_ is "+mc.ctor+") "+v.T+")", eq(ref, "("+mc.sel+" "+v.T+")")))
+			out = append(out, and("((_ is "+sc.ctor+") "+v.T+")", eq(ref, "(s!ref ("+sc.sel+" "+v.T+"))")))
+			continue
+		}
+		out = append(out, eq(ref, r))
+	}
+	return out
+}
+
+// docCallArgs: a callee that writes one of its parameters must be handed an object the caller allocated or may write.
+func (fv *FnV) docCallArgs(st *State, callee *ssa.Function, k *Contract, args []*SV, pos token.Pos) {
+	if fv.k == nil || len(fv.k.FrameTags) == 0 || k == nil {
+		return
+	}
+	for _, ex := range k.Writes {
+		for i, p := range callee.Params {
+			if p.Name() != ex || i >= len(args) {
+				continue
+			}
+			t := fv.term(args[i])
+			ref := t
+			switch fv.g.sortOf(p.Type()) {
+			case sSlice:
+				ref = "(s!ref " + t + ")"
+			case sAny:
+				continue
+			}
+			alts := []string{"(>= (birth " + ref + ") " + fv.now0 + ")"}
+			alts = append(alts, fv.writableRefs(st, ref)...)
+			fv.emit(st, "W", "arg:"+shortCallee(canonName(callee))+"."+ex+"@"+fv.siteText(pos, "call"), fv.k.FrameTags, or(alts...),
+				"the object passed as `"+ex+"` (which the callee writes) was allocated by this activation or is named in a `writes` clause", pos)
+		}
+	}
+}
+
+// engineOwnedTarget: the written map/slice value was loaded from a struct field or global declared engine-owned.
+func (fv *FnV) engineOwnedTarget(v ssa.Value) bool {
+	if v == nil {
+		return false
+	}
+	pkg := fv.pkgShort()
+	switch x := v.(type) {
+	case *ssa.UnOp:
+		switch a := x.X.(type) {
+		case *ssa.FieldAddr:
+			pt := a.X.Type().Underlying().(*types.Pointer).Elem()
+			st := pt.Underlying().(*types.Struct)
+			tn := pt.String()
+			if i := strings.LastIndex(tn, "."); i >= 0 {
+				tn = tn[i+1:]
+			}
+			return fv.g.engineOwned[pkg+"."+tn+"."+st.Field(a.Field).Name()]
+		case *ssa.Global:
+			return fv.g.engineOwned[pkg+"."+a.Name()]
+		}
+	case *ssa.Phi:
+		for _, e := range x.Edges {
+			if !fv.engineOwnedTarget(e) {
+				return false
+			}
+		}
+		return len(x.Edges) > 0
+	}
+	return false
 }
